@@ -235,6 +235,20 @@ func (u *Unit) call(fr *Frame, st *State, c *ssa.CallCommon, instr ssa.Value, po
 		}
 		return u.havocCall(st, c, "interface call "+name)
 	}
+	// a call through a package-level function variable (an injected hook such as
+	// jsonopts.JoinUnknownOption) uses the extern contract declared under that name
+	if uo, ok := c.Value.(*ssa.UnOp); ok {
+		if g, ok := uo.X.(*ssa.Global); ok && g.Pkg != nil {
+			name := g.Pkg.Pkg.Name() + "." + g.Name()
+			if con := u.eng.externs[name]; con != nil {
+				var args []Val
+				for _, a := range c.Args {
+					args = append(args, u.value(fr, a))
+				}
+				return u.applyContract(fr, st, con, nil, args, pos, name)
+			}
+		}
+	}
 	fv := u.value(fr, c.Value)
 	var args []Val
 	for _, a := range c.Args {
@@ -792,6 +806,15 @@ func (u *Unit) callMods(fr *Frame, li *loopInfo, c *ssa.CallCommon, depth int, s
 		li.modAll = true
 		markAllocArgs()
 		return
+	}
+	if uo, ok := c.Value.(*ssa.UnOp); ok {
+		if g, ok := uo.X.(*ssa.Global); ok && g.Pkg != nil {
+			if con := u.eng.externs[g.Pkg.Pkg.Name()+"."+g.Name()]; con != nil {
+				u.contractMods(li, con)
+				markAllocArgs()
+				return
+			}
+		}
 	}
 	switch f := c.Value.(type) {
 	case *ssa.Builtin:
